@@ -166,8 +166,7 @@ def alloc_args(progs):
                 continue
             linit = A.local_inits(body)
             in_base = f.get('clsq') in BASES
-            order = list(walk(body))
-            pos = {id(n): i for i, n in enumerate(order)}
+            pos = A.eval_order(body, f.get('inits'))
             for c in A.calls(body):
                 sn = A.cshort(c)
                 args = c.get('args', [])
